@@ -194,3 +194,65 @@ Example C25_m10_example :
   | Err _ => False
   end.
 Proof. split; vm_compute; reflexivity. Qed.
+
+(* ---- Migration 7 (old-style summary tables).  summary_match is summary_re.match on a table name (None, or
+        groups 1 and 2), pick_table is identifiers.pick_table_ident: arbitrary functions.  Proved: the BODY returns
+        (computes its doc actions without raising) under pre7, whose table clause says that when a table name
+        matches and group 1 is an existing table, the column refs in group 2 parse and name column records -- the
+        hypothesis that excludes names like Summary_Foo.  That the emitted RemoveColumn / RenameTable /
+        ModifyColumn / BulkRemoveRecord actions then apply is NOT proved (covered by the differential tie only).
+        Without the hypothesis the body raises: the known finding, kept as a theorem about the model. ---- *)
+Theorem C25_m7_body_total : forall summary_match pick_table s,
+  pre7 summary_match s = true -> exists acts, m7 summary_match pick_table s = Ok acts.
+Proof. exact m7_body_total. Qed.
+
+Definition ex7 : tds := mkTds
+  [(T_TABLES, ([Some 1; Some 2], [(zs "tableId", [VStr (zs "Foo"); VStr (zs "Summary_Foo")])]));
+   (T_COLUMNS, ([Some 1; Some 2],
+      [(zs "parentId", [VInt 1; VInt 2]); (zs "colId", [VStr (zs "A"); VStr (zs "B")]);
+       (zs "formula", [VStr []; VStr []]); (zs "isFormula", [VBool false; VBool false])]))]
+  [].
+(* what the regular expression of migration 7 answers on these two names *)
+Definition ex7_match (name : str) : option (str * str) :=
+  if seqb name (zs "Summary_Foo") then Some (zs "Foo", []) else None.
+
+Theorem C25_m7_refuted :
+  m7 ex7_match (fun n _ => n) ex7 = Err ValueErr /\
+  (* ... although the document is otherwise inside pre7: only the refs clause of table 2 fails *)
+  has_table_b T_TABLES ex7 = true /\ has_table_b T_COLUMNS ex7 = true /\
+  forallb (col_pre7 ex7) (recs T_COLUMNS ex7) = true /\
+  map (table_pre7 ex7_match ex7) (recs T_TABLES ex7) = [true; false] /\
+  parse_refs [] = Err ValueErr.
+Proof. repeat split; vm_compute; reflexivity. Qed.
+
+(* with refs in the name the same document migrates (body): Summary_Foo_1 groups by column 1 *)
+Example C25_m7_example :
+  let s := mkTds
+    [(T_TABLES, ([Some 1; Some 2], [(zs "tableId", [VStr (zs "Foo"); VStr (zs "Summary_Foo_1")])]));
+     (T_COLUMNS, ([Some 1; Some 2],
+        [(zs "parentId", [VInt 1; VInt 2]); (zs "colId", [VStr (zs "A"); VStr (zs "A")]);
+         (zs "formula", [VStr []; VStr []]); (zs "isFormula", [VBool false; VBool false])]))] [] in
+  let sm := fun name => if seqb name (zs "Summary_Foo_1") then Some (zs "Foo", zs "_1") else None in
+  pre7 sm s = true /\
+  match m7 sm (fun n _ => n) s with
+  | Ok acts => existsb (fun a => match a with RenameTable o n => seqb o (zs "Summary_Foo_1") && seqb n (zs "Foo_summary_A") | _ => false end) acts = true
+  | Err _ => False
+  end.
+Proof. split; vm_compute; reflexivity. Qed.
+
+(* ---- Migrations 4 (tabPos = row id) and 39 (the two version-38 schemas): need only their tables. ---- *)
+Theorem C25_m4_total : forall s, pre4 s = true -> migrates m4 s.
+Proof. exact m4_total. Qed.
+
+Theorem C25_m39_total : forall s, pre39 s = true -> migrates m39 s.
+Proof. exact m39_total. Qed.
+
+Example C25_m39_example :
+  let s := mkTds [(T_TRIGGERS, ([Some 1; Some 2], [(zs "actions", [VStr []; VStr []])]));
+                  (T_SECTIONS, ([], [(zs "description", [])]))]
+                 [(T_TRIGGERS, []); (T_SECTIONS, [])] in
+  pre39 s = true /\
+  m39 s = Ok [add_column T_TRIGGERS (zs "memo") (zs "Text"); add_column T_TRIGGERS (zs "label") (zs "Text");
+              add_column T_TRIGGERS (zs "enabled") (zs "Bool");
+              BulkUpdateRecord T_TRIGGERS [Some 1; Some 2] [(zs "enabled", [VBool true; VBool true])]].
+Proof. split; vm_compute; reflexivity. Qed.
